@@ -45,6 +45,15 @@ func randCase(c *core.Ctx, label, s string) string {
 // payload integrity), which dictionary-drawn extra headers must not disturb
 var semanticHeaders = []string{"Content-Type", "Cache-Control", "Expires", "Digest", "MI-Draft2", "Content-Encoding", "Signature", "Variants", "Variant-Key", "X-Uniq"}
 
+func in(list []string, s string) bool {
+	for _, x := range list {
+		if strings.EqualFold(x, s) {
+			return true
+		}
+	}
+	return false
+}
+
 func canonNames(l *gen.LSXG) map[string]bool {
 	m := map[string]bool{}
 	for _, h := range l.RespHeaders {
@@ -75,9 +84,10 @@ func TestPolicy(t *testing.T) {
 			twoSignatures := false
 			manyHeaders := false
 			decoy := ""
+			methodAbsent := false
 			nvar := c.Int("nvariations", 0, 3)
 			for i := 0; i < nvar; i++ {
-				kind := c.PickStr("variation", "validity", "lifetime", "integrity", "foreign-integrity", "number-overflow", "two-signatures", "decoy-signature", "many-headers", "method", "req-header", "resp-header", "content-type", "cache-control", "expires-header", "status")
+				kind := c.PickStr("variation", "validity", "lifetime", "integrity", "foreign-integrity", "number-overflow", "two-signatures", "decoy-signature", "many-headers", "method", "method-absent", "req-header", "resp-header", "content-type", "cache-control", "expires-header", "status")
 				kinds = append(kinds, kind)
 				switch kind {
 				case "validity":
@@ -142,6 +152,12 @@ func TestPolicy(t *testing.T) {
 					// (unsigned) date / expires / validity-url parameters are beyond reproach: each
 					// entry stands or falls by itself, so the verdict is the genuine one's
 					decoy = c.PickStr("decoy.position", "first", "last")
+				case "method-absent":
+					// (1b1 / 1b2) the file's request map has no :method entry at all - not GET, not HEAD
+					if l.Version != "1b3" {
+						methodAbsent = true
+						p.Method = ""
+					}
 				case "many-headers":
 					// a response with 20-40 distinct (harmless) header fields
 					if !manyHeaders {
@@ -194,6 +210,25 @@ func TestPolicy(t *testing.T) {
 						name = c.PickDict("resp.dict", []string{"X-Plain"}, core.HeaderNameRe, semanticHeaders...)
 					case 1:
 						name = lookalikeResp[c.Pick("resp.look", len(lookalikeResp))]
+						if c.Bool("resp.nearMiss") {
+							// derived from a banned name: same first segment, one character more or less
+							b := bannedResp[c.Pick("resp.nearMissOf", len(bannedResp))]
+							switch c.Pick("resp.nearMissHow", 5) {
+							case 0:
+								name = strings.SplitN(b, "-", 2)[0] + "-Status"
+							case 1:
+								name = b + "s"
+							case 2:
+								name = b[:len(b)-1]
+							case 3:
+								name = "X-" + b
+							default:
+								name = b + "-Report-Only"
+							}
+							if in(bannedResp, name) {
+								name = "X-Plain"
+							}
+						}
 					default: // banned as a REQUEST field, harmless in a response
 						name = bannedReq[c.Pick("resp.cross", len(bannedReq))]
 					}
@@ -234,7 +269,7 @@ func TestPolicy(t *testing.T) {
 						// a comma-splitting parser read the directives before it alike
 						parts = append(parts, c.PickStr("cc.unbalanced", `no-cache="set-cookie`, `ext="x\"`, `ext="`, `"`))
 					}
-					p.CacheControl = strings.Join(parts, c.PickStr("cc.sep", ",", ", ", " , "))
+					p.CacheControl = strings.Join(parts, c.PickStr("cc.sep", ",", ", ", " , ", ",\t", "\t,", " \t, \t"))
 					var hs []gen.HV
 					for _, h := range l.RespHeaders {
 						if strings.ToLower(h.Name) != "cache-control" {
@@ -339,12 +374,27 @@ func TestPolicy(t *testing.T) {
 				}
 				c.Probe("Signature header with two valid signatures")
 			}
+			if methodAbsent {
+				// only the file can say "no method": rebuilt by the reference writer from what was
+				// signed, minus the :method entry; the publisher's in-memory object is not judged
+				if f, perr := refsxg.Parse(l.File); perr == nil {
+					hb := refsxg.HeaderBlock(l.Version, l.URL, refsxg.MethodAbsent, f.Req, f.Status, f.Resp)
+					l.File = refsxg.Build(l.Version, f.URL, pub.SignatureHeaderValue, hb, f.Payload)
+					c.Probe("file whose request map has no :method entry")
+				} else {
+					methodAbsent = false
+					p.Method = l.Method
+				}
+			}
 			net := newCertNet(c)
 			rd, rerr, pi, _ := readFile(c, l.File, c.DrawReaderPlan("cdn", len(l.File), false))
 			if pi != nil {
 				c.CheckTotal("ReadExchange", len(l.File), pi, 0)
 			}
 			objs := []*signedexchange.Exchange{pub}
+			if methodAbsent {
+				objs = nil
+			}
 			if rerr == nil && rd != nil {
 				objs = append(objs, rd)
 			}
@@ -384,7 +434,7 @@ func TestPolicy(t *testing.T) {
 			// history on ONE object: the publisher edits the exchange it has just verified -
 			// one response header renamed, the number of headers unchanged - signs it again
 			// and verifies again; the verdict must be the new policy's, not a remembered one
-			if c.Bool("editAndReverify") && integrityEdit == "" && overflowEdit == "" && !twoSignatures && decoy == "" {
+			if c.Bool("editAndReverify") && integrityEdit == "" && overflowEdit == "" && !twoSignatures && decoy == "" && !methodAbsent {
 				var names []string
 				for _, k := range core.SortedKeys(map[string][]string(pub.ResponseHeaders)) {
 					lk := strings.ToLower(k)
